@@ -40,10 +40,12 @@ type Case struct {
 // Known-defect switches.  A class listed as known (VERIF_KNOWN) is excluded
 // from generation by construction so that the search continues behind it.
 const (
-	keyTypesubAddr  = "typesub-unaddressable"
-	keyTextSliceRec = "textstruct-slice-recursed"
-	keyTextunmUnset = "textunm-unset-pointer"
-	keyNamedCast    = "named-strcast"
+	keyTypesubAddr   = "typesub-unaddressable"
+	keyTextSliceRec  = "textstruct-slice-recursed"
+	keyTextunmUnset  = "textunm-unset-pointer"
+	keyNamedCast     = "named-strcast"
+	keyAliasEmbedded = "alias-embedded-struct"
+	keyAnonPtr       = "anonflatten-pointer-to-nonstruct"
 )
 
 var (
@@ -54,7 +56,7 @@ var (
 func known(key string) bool {
 	knownOnce.Do(func() {
 		knownSet = map[string]bool{}
-		for _, k := range []string{keyTypesubAddr, keyTextSliceRec, keyTextunmUnset, keyNamedCast} {
+		for _, k := range []string{keyTypesubAddr, keyTextSliceRec, keyTextunmUnset, keyNamedCast, keyAliasEmbedded, keyAnonPtr} {
 			knownSet[k] = vrt.IsKnown("C10", k)
 		}
 		for _, k := range strings.Split(os.Getenv("VERIF_C10_EXCLUDE"), ",") {
@@ -63,10 +65,8 @@ func known(key string) bool {
 			}
 		}
 	})
-	return knownSet[k(key)]
+	return knownSet[key]
 }
-
-func k(s string) string { return s }
 
 // namedThroughStringCast: fill named scalar leaves through string-casting
 // chains (C16's known defect: parse.String returns the underlying kind).
@@ -74,7 +74,7 @@ var namedThroughStringCast = os.Getenv("VERIF_C10_NAMED_STRCAST") == "1"
 
 var vocab = []string{"alpha", "bravo", "cache", "delta", "echo", "flush", "gamma", "host", "index", "jitter", "key", "limit", "mode", "node", "offset", "port", "queue", "retry", "size", "token", "user", "value", "window", "zone", "path", "file", "name", "rate", "depth", "count", "api", "cpu", "dns", "http", "id", "ip", "json", "sql", "tls", "url"}
 
-func c10Profile() shape.Profile {
+func c10Profile(plan chainPlan) shape.Profile {
 	p := shape.FullProfile()
 	lt := append([]string{}, shape.AllLeafTypes...)
 	lt = append(lt, "[]Job", "[]Job", "[]Job", "TagSet", "map[string]struct{}", "map[string]struct{}", "time.Duration", "time.Duration",
@@ -85,8 +85,25 @@ func c10Profile() shape.Profile {
 	if !known(keyTextSliceRec) {
 		lt = append(lt, "[]time.Time", "[]Stamp")
 	}
+	if known(keyTextunmUnset) && plan.spec.has("textunm") {
+		// leaves that pointerify to a pointer to a text-unmarshalable type
+		var keep []string
+		for _, ty := range lt {
+			switch ty {
+			case "time.Time", "Stamp", "Color", "*time.Time", "*Stamp":
+				continue
+			}
+			keep = append(keep, ty)
+		}
+		lt = keep
+	}
 	p.LeafTypes = lt
 	p.EmbedTypes = []string{"EmbA", "EmbB", "EmbC", "EmbTag", "EmbDeep"}
+	if !known(keyAnonPtr) {
+		// an embedded named non-struct type
+		p.EmbedTypes = append(p.EmbedTypes, "Level")
+	}
+	p.MinFields = 2
 	return p
 }
 
@@ -134,7 +151,23 @@ func genRandomChain(t *rapid.T) chainPlan {
 	pool := []string{"alias", "anonflatten", "flatten", "setslice", "dursub", "textunm", "stringcast", "tagcopy", "reformat"}
 	perm := rapid.Permutation(pool).Draw(t, "mangler_order")
 	n := rapid.IntRange(2, 6).Draw(t, "chain_len")
-	kinds := perm[:n]
+	kinds := append([]string{}, perm[:n]...)
+	if known(keyAnonPtr) {
+		// keep anonymous-flatten in front of the string cast (an embedded
+		// field cast to *string is an embedded pointer to a non-struct)
+		ai, si := -1, -1
+		for i, k := range kinds {
+			switch k {
+			case "anonflatten":
+				ai = i
+			case "stringcast":
+				si = i
+			}
+		}
+		if ai >= 0 && si >= 0 && si < ai {
+			kinds[ai], kinds[si] = kinds[si], kinds[ai]
+		}
+	}
 	pos := map[string]int{}
 	for i, k := range kinds {
 		pos[k] = i
@@ -266,7 +299,9 @@ func (d *decorator) fields(fs []shape.Field, underAlias bool) {
 		if d.pct("has_dials", 35) {
 			tags = append(tags, fmt.Sprintf(`dials:"%s"`, d.tagValue("dials")))
 		}
-		if d.pct("has_alias", 22) {
+		embedded := f.Kind == "embed" || f.Kind == "pembed"
+		noAlias := embedded && d.plan.aliasDials && known(keyAliasEmbedded) && (d.plan.spec.has("flatten") || d.plan.spec.has("anonflatten"))
+		if d.pct("has_alias", 22) && !noAlias {
 			tags = append(tags, fmt.Sprintf(`dialsalias:"%s"`, d.tagValue("alias")))
 			aliased = d.plan.aliasDials
 		}
@@ -339,7 +374,7 @@ func genCase(t *rapid.T, random bool) Case {
 		plan.keyCands = [][]string{plan.spec.KeyTags}
 	}
 	named := namedThroughStringCast && !known(keyNamedCast)
-	prof := c10Profile()
+	prof := c10Profile(plan)
 	var c Case
 	var md *model
 	for attempt := 0; attempt < 8 && md == nil; attempt++ {
@@ -393,20 +428,22 @@ func genCase(t *rapid.T, random bool) Case {
 		}
 	}
 	// fills
-	pct := []int{0, 30, 30, 85, 85, -1}[rapid.IntRange(0, 5).Draw(t, "fill_density")]
+	pct := []int{0, 30, 30, 60, 85, 100, -1, -1}[rapid.IntRange(0, 7).Draw(t, "fill_density")]
 	var fillable []originLeaf
 	for _, ol := range md.origins {
 		if ol.fillable {
 			fillable = append(fillable, ol)
 		}
 	}
-	forceText := known(keyTextunmUnset) && c.Chain.has("textunm")
-	if pct == -1 {
+	if pct != 0 {
+		// at least one leaf is written
 		if len(fillable) > 0 {
 			ol := fillable[rapid.IntRange(0, len(fillable)-1).Draw(t, "single_fill")]
 			c.Fill = append(c.Fill, FillEntry{Path: ol.path, Seed: rapid.Uint64Range(1, 1<<40).Draw(t, "seed")})
 		}
-		pct = 0
+		if pct == -1 {
+			pct = 0
+		}
 	}
 	single := ""
 	if len(c.Fill) == 1 {
@@ -416,7 +453,7 @@ func genCase(t *rapid.T, random bool) Case {
 		if ol.path == single {
 			continue
 		}
-		if (forceText && isPtrText(ol.otype)) || rapid.IntRange(0, 99).Draw(t, "fill") < pct {
+		if rapid.IntRange(0, 99).Draw(t, "fill") < pct {
 			c.Fill = append(c.Fill, FillEntry{Path: ol.path, Seed: rapid.Uint64Range(1, 1<<40).Draw(t, "seed")})
 		}
 	}
